@@ -28,6 +28,7 @@ static CaseResult run(const RunCtx &ctx, const Tape &tape, Tape &canon) {
         static const unsigned tw[] = {3, 3, 2, 2, 1, 1, 1, 1, 2, 2, 1, 1};
         kt = t.weighted(tw);
     }
+    if (beyond32_mode(ctx)) kt = t.below(2) ? 11 : 1; // uint64_t / unsigned long long
     CaseResult r = (*FNS[kt])(ctx, t, size_hint);
     canon = t.canon();
     return r;
